@@ -1,6 +1,7 @@
 package props
 
 import (
+	"context"
 	"fmt"
 	"encoding/base64"
 	"net/http"
@@ -34,6 +35,7 @@ type loP struct {
 	Lex       string // purely lexical serialisation variant (lexVals)
 	Wire      string // legal wire-level variant: "" | b64-76 | b64-64crlf | ctype-charset (POST) | flate-stored | flate-flushed | flate-chunks (Redirect)
 	HTTP      string // HTTP-level shape (world.HTTPShapes)
+	Dirty     string // "" | failed-writes (dirtyWrites)
 	Sibling   string // another provider instance alive in the same process (world.SiblingKinds)
 	Lookup    string // GetEntityByID fault: "" | error | error-ctx-deadline | error-ctx-canceled
 }
@@ -100,12 +102,15 @@ func loBuild(p loP) (*world.World, *http.Request, *loTruth) {
 	if _, err := w.Store.RegisterSP("app-c", loSPC().XML()); err != nil {
 		panic(err)
 	}
+	if p.Dirty != "" {
+		dirtyWrites(w)
+	}
 	if p.Lookup != "" {
-		kind, ok := map[string]string{"error": world.FaultError, "error-ctx-deadline": world.FaultCtxDeadline, "error-ctx-canceled": world.FaultCtxCanceled}[p.Lookup]
+		kind, ok := map[string]string{"error": world.FaultError, "error-ctx-deadline": world.FaultCtxDeadline, "error-ctx-canceled": world.FaultCtxCanceled, "client-gone": world.FaultClientGone}[p.Lookup]
 		if !ok {
 			panic("loBuild: Lookup " + p.Lookup)
 		}
-		w.Store.FaultAt("GetEntityByID", 1, kind)
+		w.Store.FaultNext("GetEntityByID", 1, kind)
 		t.IssuerRegistered = false
 	}
 	o := msg.LogoutOpts{ID: "_lo-91c2", Issuer: a.EntityID}
@@ -262,6 +267,11 @@ func loBuild(p loP) (*world.World, *http.Request, *loTruth) {
 		panic("loBuild: transport " + p.Transport)
 	}
 	req = world.Shape(req, p.HTTP)
+	if p.Lookup == "client-gone" {
+		ctx, cancel := context.WithCancel(req.Context())
+		req = req.WithContext(ctx)
+		w.Store.CancelFn = cancel
+	}
 	return w, req, t
 }
 
@@ -303,6 +313,8 @@ func (p *loP) set(name, val string) {
 		p.Wire = val
 	case "HTTP":
 		p.HTTP = val
+	case "Dirty":
+		p.Dirty = val
 	case "Sibling":
 		p.Sibling = val
 	case "Lookup":
